@@ -146,6 +146,32 @@ def exclusion(tier):
     return fn
 
 
+def renamed_then_ignored(b, sym):
+    """a file is renamed (recorded with -dr); later a pattern matches its new name only: it is neither missing nor new"""
+    b.mkfile("R/a.txt", 1)
+    b.mkfile("R/d/b.txt", 2)
+    r = b.run("create", root="R", h=["md5"])
+    b.require(r.exit == 0, "setup-create", str(r))
+    new = sym.choose("new_name", ["R/a.tmp", "R/d/a_moved.tmp"])
+    b.rename("R/a.txt", new)
+    r = b.run("create", root="R", h=["md5"], dr=True)
+    b.require(r.exit == 0, "setup-create", "create -dr: %s" % r)
+    via = sym.choose("pattern_via", ["-i on the command", "persisted by a create"])
+    kw = {"i": ["*.tmp"]}
+    if via != "-i on the command":
+        r = b.run("create", root="R", h=["md5"], i=["*.tmp"])
+        b.require(r.exit == 0 and r.exc is None, "ignored-change-no-failure", "create -i *.tmp after the rename: %s | %s" % (r, r.err[:3]))
+        kw = {}
+    if sym.flag("ignored_file_edited"):
+        b.alter(new, 9)
+    for cmd in ("verify", "diff", "create"):
+        r = b.run(cmd, root="R", **kw) if cmd != "create" else b.run("create", root="R", h=["md5"], **kw)
+        b.require(r.exit == 0 and r.exc is None, "ignored-change-no-failure", "%s with *.tmp ignored after a.txt was renamed to %s: exit %s | %s"
+                  % (cmd, cm.rel_to(new, "R"), r.exit, (r.err + r.out)[:3]))
+        for l in r.out + r.err:
+            b.require("missing" not in l and "found new file" not in l, "ignored-path-reported", "%s: %s" % (cmd, l))
+
+
 def long_history(b, sym):
     """patterns accumulate over more than nine generations"""
     b.mkfile("R/a.txt", 1)
@@ -183,6 +209,9 @@ def harnesses(tier):
                 what="MHLIgnoreSpec with 0-3 previous and 0-3 new patterns of symbolic identity: result = previous (or defaults) + new in order of "
                      "first appearance, no duplicates",
                 bounds={"previous": "0-3 distinct", "new": "0-3 (duplicates allowed)", "identities": "4 values, compared symbolically"}, outside=out),
+        Harness("c12-renamed", renamed_then_ignored, frontier=4, budget_s=600,
+                what="a file renamed (recorded with -dr) to a name that a later pattern ignores: verify / diff / create report it neither missing nor new",
+                bounds={"names": 2, "pattern": "-i on every command | persisted"}, outside=out),
         Harness("c12-long", long_history, frontier=3, budget_s=900,
                 what="12 generations (flat or with a nested history), patterns added in generation 3 and in generation 9 / 10 / 11: lists and exclusions persist",
                 bounds={"generations": 12}, outside=out),
